@@ -10,6 +10,9 @@ Robustness spellings (`xdet`, `xqr`, `xnorm`, `xsolve`): the same model definiti
 multiplied by an exact scale.  The trailing variant token is `<type>/<scaleA>/<scaleB>` with a scale spelled `1`,
 `2^-30`, `10^9` …; the element type only concerns the Rust side.  The answers are exact rationals of the scaled
 input (so the absolute `1e-12` test of `solve` is evaluated at the scaled values, as the code does).
+
+Magnitude bands (round 5; `psolve`, `pdet`, `pqr`, `pnorm`): every ENTRY carries its own exact scale, spelled as a
+second integer array of exponents and a base (`2` or `10`): value = integer * base ^ exponent.  Same model definitions.
 -/
 namespace Driver.C15
 open ArrModel ArrModel.C15 Driver
@@ -72,6 +75,13 @@ def parseVariant? (s : String) : Option (Rat × Rat) :=
 
 def scaleArr (s : Rat) (a : Arr Rat) : Arr Rat := ⟨a.elems.map (· * s), a.shape⟩
 
+/-- per-entry exact scales (round-5 magnitude-band streams `psolve` / `pqr` / `pdet` / `pnorm`): entry `i` of the
+integer array `a` times `base ^ e[i]`; `e` is spelled as an integer array of the same shape -/
+def bandArr? (base : String) (a e : Arr Int) : Option (Arr Rat) := do
+  let b ← parseNat? base
+  if b = 0 ∨ a.shape ≠ e.shape ∨ a.elems.length ≠ e.elems.length then none
+  else some ⟨List.zipWith (fun (m k : Int) => (m : Rat) * ratPowInt (b : Rat) k) a.elems e.elems, a.shape⟩
+
 /-- largest element count for which `normX` is evaluated next to the lane form -/
 def normXLimit : Nat := 300
 
@@ -127,6 +137,19 @@ def handle (op : String) (args : List String) : Option String :=
   | "xqr", [a, v] => do
     let a ← parseArr? a; let (sa, _) ← parseVariant? v
     some (showRes (fun l => ";".intercalate (l.map showQR)) (qrArr (scaleArr sa (toRatArr a))))
+  | "psolve", [a, ea, b, eb, base] => do
+    let a ← bandArr? base (← parseArr? a) (← parseArr? ea)
+    let b ← bandArr? base (← parseArr? b) (← parseArr? eb)
+    some (showRes showRatArr (solveArr a b))
+  | "pdet", [a, ea, base] => do
+    let a ← bandArr? base (← parseArr? a) (← parseArr? ea)
+    some (showRes showRatArr (detArr a))
+  | "pqr", [a, ea, base] => do
+    let a ← bandArr? base (← parseArr? a) (← parseArr? ea)
+    some (showRes (fun l => ";".intercalate (l.map showQR)) (qrArr a))
+  | "pnorm", [a, ea, base, ord, axis, keep] => do
+    let a ← bandArr? base (← parseArr? a) (← parseArr? ea)
+    handleNorm a ord axis keep
   | "qr", [a] => do
     let a ← parseArr? a
     some (showRes (fun l => ";".intercalate (l.map showQR)) (qrArr (toRatArr a)))
